@@ -328,6 +328,9 @@ EvalVecBox(c) ==
            (ortho \/ hh) => impl \in mins,
            (~ortho /\ hh) => mins = {impl},
            MinImageN2(d, B, 3) = MinImageN2(d, B, 2),
+           \* the cheap "specified" test of the operand-shape families = the declarative one
+           /\ PairSpecifiedP(d, BoxCtx(B)) = (Cardinality(mins) = 1 /\ (ortho \/ hh))
+           /\ PairSpecifiedP(VNeg(d), BoxCtx(B)) = PairSpecifiedP(d, BoxCtx(B)),
            /\ IsLatticeVec(VSub(w, d), B) /\ InsideBox(w, B)
            /\ FractionToCoord(CoordToFraction(d, B), B) = d
            /\ MoveInside(w, B) = w >> >>
@@ -409,8 +412,8 @@ EvalShapes(c) ==
       ops == [j \in 1..ar |-> OperandOf(C, j, f[j][1])]
       tops == [j \in 1..ar |-> OperandOf(T, j, f[j][1])]
       res == Eager2(Broadcast(fn, ops, ba))
-      tres == Eager2(Broadcast(fn, tops, ba))
-      rev == Eager2(Broadcast(fn, [j \in 1..ar |-> ops[ar + 1 - j]], ba))
+      tres == Eager2(BroadcastValues(fn, tops, ba))
+      rev == Eager2(BroadcastValues(fn, [j \in 1..ar |-> ops[ar + 1 - j]], ba))
       r == RanksOf(f)
   IN << <<[j \in 1..ar |-> ops[j][2]], ResultRank(ops), res>>,
         << Dom_Operands(ops) /\ Dom_BoxArg(ba, ops)
@@ -421,12 +424,11 @@ EvalShapes(c) ==
               ImplFnValueP(fn, r, [j \in 1..ar |-> OperandAt(ops[j], mi, ai)], CtxOf(BoxAt(ba, mi))) = res[mi][ai][1]),
            \* wrapping by lattice vectors changes nothing where the value is specified
            AllEntries(res, LAMBDA mi, ai :
-              /\ res[mi][ai][2] = tres[mi][ai][2]
-              /\ res[mi][ai][2] => res[mi][ai] = tres[mi][ai]),
+              res[mi][ai][2] => res[mi][ai][1] = tres[mi][ai][1] /\ res[mi][ai][3] = tres[mi][ai][2]),
            \* reversed argument order
            AllEntries(res, LAMBDA mi, ai :
               res[mi][ai][2] => /\ rev[mi][ai][1] = ReversedValue(fn, res[mi][ai][1])
-                                /\ rev[mi][ai][3] = res[mi][ai][3]) >> >>
+                                /\ rev[mi][ai][2] = res[mi][ai][3]) >> >>
 
 EvalIndex(c) ==
   LET fn == c[1]  r == c[2][1]  T == ShapeWorlds[c[3]]  ba == c[5]  perm == c[6]
@@ -439,14 +441,13 @@ EvalIndex(c) ==
       rows == Eager2([x \in 1..(n + 1) |-> [p \in 1..ar |->
                  (perm[p] - 1) * n + (IF x <= n THEN x ELSE IF p = 1 THEN 1 ELSE n)]])
       res == Eager2(IndexFn(fn, atoms, rows, ba))
-      tres == Eager2(IndexFn(fn, tatoms, rows, ba))
+      tres == Eager2(BroadcastValues(fn, [p \in 1..ar |-> Gather(tatoms, rows, p)], ba))
       direct == Eager2(Broadcast(fn, [p \in 1..ar |-> OperandOf(C, perm[p], r)], ba))
   IN << <<atoms[2], rows, res, Diag(32, 32, 32)>>,
         << \* index-based = coordinate-based on the operands of the world
            \A mi \in DOMAIN res : \A ai \in 1..n : res[mi][ai] = direct[mi][ai],
            AllEntries(res, LAMBDA mi, x :
-              /\ res[mi][x][2] = tres[mi][x][2]
-              /\ res[mi][x][2] => res[mi][x] = tres[mi][x]) >> >>
+              res[mi][x][2] => res[mi][x][1] = tres[mi][x][1] /\ res[mi][x][3] = tres[mi][x][2]) >> >>
 
 Evaluate(c) ==
   CASE c[1] = "geom"    -> EvalGeom(c[2])
